@@ -101,7 +101,7 @@ def step(all_rows: List[int], fetched: int, op: int, n: int, arraysize: int) -> 
     return 'ok'
 
 
-OPNAMES = ['fetchone', 'fetchmany_n', 'fetchmany', 'fetchall', 'iterate_n', 'reexecute', 'othercursor']
+OPNAMES = ['fetchone', 'fetchmany_n', 'fetchmany', 'fetchall', 'iterate_n', 'reexecute', 'othercursor', 'next_kept']
 
 
 def _hist_body(opcodes, nrows, sizes, arraysize, via_conn=False):
@@ -128,8 +128,16 @@ def _hist_body(opcodes, nrows, sizes, arraysize, via_conn=False):
     label = _attrs(cur, rows, fetched)
     if label:
         return label + '-after-execute'
+    kept = iter(cur)        # one iterator kept alive for the whole history (op 7 resumes it)
     for op, n in zip(opcodes, sizes):
-        if op == 5:
+        if op == 7:
+            row = next(kept, SENTINEL)
+            want = rows[fetched] if fetched < len(rows) else SENTINEL
+            if row != want:
+                return 'kept-iterator-value'
+            if want is not SENTINEL:
+                fetched += 1
+        elif op == 5:
             cur.execute(parse(stmt))
             fetched = 0
         elif op == 6:
@@ -165,10 +173,13 @@ def _make_hist(opcodes, quick, thorough):
         return _hist_body(opcodes, nrows, [sizes[f'n{i}'] for i in range(len(opcodes))], arraysize, bool(via_conn))
 
 
-for _a in range(7):
+for _a in range(8):
     _make_hist((_a,), 60, 120)
-    for _b in range(7):
+    for _b in range(8):
         _make_hist((_a, _b), 120, 240)
+        if 7 in (_a, _b):
+            # the kept iterator resumed after another operation: one more step shows what it delivers next
+            _make_hist((_a, _b, 7), 120, 240)
         for _c in range(7):
             # length 3: a consuming op is needed for re-execute / other cursor to matter
             if _c in (5, 6) and _b in (5, 6):
